@@ -543,6 +543,17 @@ func (c *FnCtx) havocModItem(st *State, env *SpecEnv, m ModItem, preHeap map[str
 				st.assume(f)
 			}
 		}
+	case "sent":
+		ch, err := c.eval(env, m.Expr)
+		if err != nil {
+			c.errs = append(c.errs, "modifies: "+err.Error())
+			return
+		}
+		name := arrName("S", "sent", "", "Int")
+		arr := c.heapGet(st.heap, name)
+		nv := c.fresh("sent", "Int")
+		st.assume("(>= " + nv + " 0)")
+		c.heapSet(st, name, sto(arr, ch.S, nv))
 	case "map":
 		mv, err := c.eval(env, m.Expr)
 		if err != nil {
